@@ -1,5 +1,64 @@
-(* Props/C09.v — placeholder while the proofs are being developed *)
-From RBQL Require Import Base Parser ParserVars.
-Example C09_placeholder : h_init true = mkH true false.
-Proof. reflexivity. Qed.
-Print Assumptions C09_placeholder.
+(* Props/C09.v — Column-name variables bind to the right column; header line is never data.
+   ONLY statements: each closed by [exact <lemma>] with Print Assumptions beneath. *)
+From RBQL Require Import Base Parser ParserVars ParserVars_Proofs.
+Local Open Scope N_scope.
+
+(* The key under which the init code stores a column is the column's name: Python's value of the literal
+   that python_string_escape_column_name writes between the quotes is the name itself, for both quote
+   characters and every name without NUL (a NUL cannot occur in Python source text). *)
+Theorem C09_escape_roundtrip : forall (name : str) (qc : ch), qc = QT \/ qc = APOS -> ~ In 0 name ->
+  py_literal_value (qc :: escape_column_name qc name ++ [qc]) = Some name.
+Proof. exact escape_roundtrip. Qed.
+Print Assumptions C09_escape_roundtrip.
+
+Theorem C09_escape_injective : forall (n1 n2 : str) (qc : ch), qc = QT \/ qc = APOS -> ~ In 0 n1 -> ~ In 0 n2 ->
+  escape_column_name qc n1 = escape_column_name qc n2 -> n1 = n2.
+Proof. exact escape_injective. Qed.
+Print Assumptions C09_escape_injective.
+
+(* non-vacuity: a name made of backslash, both quotes, LF, CR, TAB, a letter and a non-ASCII character *)
+Example C09_escape_nonvacuous :
+  ~ In 0 [BSL; QT; APOS; LF; CR; TAB; 97; 19990] /\
+  escape_column_name QT [BSL; QT; APOS; LF; CR; TAB; 97; 19990] = [BSL; BSL; BSL; QT; APOS; BSL; 110; BSL; 114; BSL; 116; 97; 19990] /\
+  py_literal_value (QT :: escape_column_name QT [BSL; QT; APOS; LF; CR; TAB; 97; 19990] ++ [QT]) = Some [BSL; QT; APOS; LF; CR; TAB; 97; 19990].
+Proof. split; [intro H; cbn in H; repeat destruct H as [H|H]; try discriminate; contradiction | split; vm_compute; reflexivity]. Qed.
+Print Assumptions C09_escape_nonvacuous.
+
+(* the NUL hypothesis is needed by the model: a raw NUL is not accepted inside a literal *)
+Example C09_escape_nul_needed : py_literal_value (QT :: escape_column_name QT [0] ++ [QT]) = None.
+Proof. vm_compute. reflexivity. Qed.
+Print Assumptions C09_escape_nul_needed.
+
+(* With the effective header flag on, the records handed to the engine are all but the first one and the
+   header is the first one; with it off, every record is data and there is no header; in both cases the
+   i-th record handed over (0-based) is numbered NR = i + 1, so the first data record has NR = 1. *)
+Theorem C09_header_never_data : forall {R : Type} (flag : bool) (w : option str) (all_records : list R),
+  let st := effective flag w in
+  (has_header st = true ->
+     csv_records st all_records = tl all_records /\ csv_header st all_records = hd_error all_records) /\
+  (has_header st = false ->
+     csv_records st all_records = all_records /\ csv_header st all_records = None) /\
+  (forall i r, nth_error (csv_records st all_records) i = Some r ->
+               nth_error (numbered (csv_records st all_records)) i = Some (S i, r)).
+Proof. exact @header_never_data. Qed.
+Print Assumptions C09_header_never_data.
+
+Example C09_header_nonvacuous :
+  has_header (effective false (Some S_header)) = true /\
+  csv_records (effective false (Some S_header)) [[1]; [2]; [3]] = [[2]; [3]] /\
+  csv_header (effective false (Some S_header)) [[1]; [2]; [3]] = Some [1] /\
+  numbered (csv_records (effective false (Some S_header)) [[1]; [2]; [3]]) = [(1%nat, [2]); (2%nat, [3])] /\
+  has_header (effective true (Some S_noheaders)) = false /\
+  csv_records (effective true (Some S_noheaders)) [[1]; [2]] = [[1]; [2]].
+Proof. vm_compute. repeat split. Qed.
+Print Assumptions C09_header_nonvacuous.
+
+(* The effective flag is the WITH modifier when it is header(s) / noheader(s), else the caller's flag. The
+   join iterator applies the same function [effective] to its own caller flag and the same modifier. *)
+Theorem C09_with_override : forall (flag : bool),
+  has_header (effective flag None) = flag /\
+  (forall m, In m M_HEADER -> has_header (effective flag (Some m)) = true) /\
+  (forall m, In m M_NOHEADER -> has_header (effective flag (Some m)) = false) /\
+  (forall m, ~ In m M_HEADER -> ~ In m M_NOHEADER -> has_header (effective flag (Some m)) = flag).
+Proof. exact with_override. Qed.
+Print Assumptions C09_with_override.
